@@ -80,6 +80,17 @@ def engine(E):
     Bn['__unpack_ext__'] = _unpack_ext
 
     def _attr(E_, o, name, node):
+        if isinstance(o, VSeq) and name in ('sort', 'reverse'):
+            def reorder(E_, a, k):
+                """list.sort()/reverse() of the gathered outcomes: some permutation of them, in place"""
+                new = E.fresh('reordered_outcomes', VS)
+                E.assume(z3.Length(new) == z3.Length(o.t))
+                o.t = new
+                return NONE
+            return VStub('list.' + name, reorder)
+        if isinstance(o, VVal) and o.t.sort() == ValS and name in ('__cause__', '__context__'):
+            # the exception this one was raised `from` (or during): another object, or None
+            return VOpt(E.fresh('has_no_' + name.strip('_'), z3.BoolSort()), E.fresh_val(name.strip('_')))
         if isinstance(o, VVal) and o.t.sort() == ValS and name == '__traceback__':
             # an exception object that was never raised (future.set_exception(Err())) has no traceback
             return VOpt(NO_TB(o.t), E.fresh_val('traceback'))
@@ -141,6 +152,8 @@ def t_gather_excs(E):
 
     def on_yield(E, fr, v, node):
         out = E.w['gen_out']
+        if isinstance(v, VOpt) and not E.branch(v.isnone):
+            v = v.val
         if not (isinstance(v, VVal) and v.t.sort() == ValS):
             raise Unsupported('yield of %r' % (v,), node)
         E.w['gen_out'] = z3.Concat(out, z3.Unit(v.t))
